@@ -5,7 +5,7 @@
    emits against it.  `exec` is the engine model (Engine.v), `sem` the plan-independent denotation (Sem.v). *)
 Require Import KV.Sparql.Base KV.Sparql.Syntax KV.Sparql.MuProofs KV.Sparql.JoinProofs KV.Sparql.Algebra KV.Sparql.Engine
         KV.Sparql.PlanEquiv KV.Sparql.Sem KV.Sparql.ScanProofs KV.Sparql.BgpProofs KV.Sparql.HashProofs KV.Sparql.SemProofs
-        KV.Sparql.ExecLemmas KV.Sparql.IdemProofs KV.Sparql.GroupProofs KV.Sparql.EngineProofs KV.Sparql.PlanProofs KV.Sparql.MemoKey.
+        KV.Sparql.ExecLemmas KV.Sparql.IdemProofs KV.Sparql.GroupProofs KV.Sparql.EngineProofs KV.Sparql.PlanProofs KV.Sparql.MemoKey KV.Sparql.MemoKeyPlan.
 Require Import Permutation.
 
 (* Join of solution multisets is commutative and associative (up to permutation / as lists). *)
@@ -82,7 +82,7 @@ Print Assumptions C02_undef_filter_plan_dependence_refuted.
 (* The memo key, filter part (create_memo_key / serialize_filter_expression after the repair 276543a: the constant is written
    with {:?}, i.e. in double quotes with the double quote and the backslash escaped): injective on the filter expressions of
    the modelled fragment, so a memo hit on a Selection is a hit for the same condition.  (consts_ok: a constant does not
-   start with `?` - the engine reads such a value as a variable anyway.  The rest of the plan key is not modelled: partial.) *)
+   start with `?` - the engine reads such a value as a variable anyway.  The whole plan key: C02_memo_key_injective_plan below.) *)
 Theorem C02_memo_key_injective : forall e e', consts_ok e = true -> consts_ok e' = true -> ser_expr e = ser_expr e' -> e = e'.
 Proof. exact ser_expr_injective. Qed.
 Print Assumptions C02_memo_key_injective.
@@ -93,6 +93,40 @@ Theorem C02_memo_key_unescaped_regression :
   expr_eqb coll1 coll2 = false /\ ser_expr_unescaped coll1 = ser_expr_unescaped coll2 /\ ser_expr coll1 <> ser_expr coll2.
 Proof. exact (conj (proj1 unescaped_key_collision) (conj (proj2 unescaped_key_collision) repaired_key_separates)). Qed.
 Print Assumptions C02_memo_key_unescaped_regression.
+
+(* The WHOLE memo key (create_memo_key = serialize_logical_plan: Unit, Scan with its graph scope, Union, Graph with its graph
+   term, Selection, Join, Subquery with its SubquerySpec, Bind, Values incl. UNDEF - MemoKeyPlan.v writes each as the code does,
+   and the check compares the modelled keys with the keys of the real optimizer's memo on every generated query):
+   prefix-free, hence injective, on the logical plans of the fragment - so a memo hit is a hit for the same logical plan, and
+   two different sub-plans of one query never share a cache entry.
+   Hypotheses: vn (the spelling of the variables, sigil included) is injective and yields names (a sigil followed by characters
+   other than ) = ! < > - Bind writes its output variable raw before `)`, a filter its variable raw before the operator); enc (the
+   dictionary ids of the constants of scans, graph terms and VALUES cells) is injective (C15); kplan_ok: a constant of a filter /
+   BIND argument does not start with a sigil (the engine reads such a value as a variable anyway). *)
+Theorem C02_memo_key_injective_plan : forall (vn : var -> string) (enc : term -> N),
+  (forall x, name_ok (vn x) = true) -> (forall x y, vn x = vn y -> x = y) -> (forall a b, enc a = enc b -> a = b) ->
+  forall l l', kplan_ok l = true -> kplan_ok l' = true -> plan_key vn enc l = plan_key vn enc l' -> l = l'.
+Proof. exact plan_key_injective. Qed.
+Print Assumptions C02_memo_key_injective_plan.
+
+Theorem C02_memo_key_prefix_free_plan : forall (vn : var -> string) (enc : term -> N),
+  (forall x, name_ok (vn x) = true) -> (forall x y, vn x = vn y -> x = y) -> (forall a b, enc a = enc b -> a = b) ->
+  forall l l' t t', kplan_ok l = true -> kplan_ok l' = true -> k_plan vn enc l t = k_plan vn enc l' t' -> l = l' /\ t = t'.
+Proof. exact k_plan_prefix_free. Qed.
+Print Assumptions C02_memo_key_prefix_free_plan.
+
+(* the hypotheses on names are satisfiable: the spelling ?v<n> of MemoKey.v *)
+Theorem C02_memo_key_injective_plan_named : forall enc, (forall a b : term, enc a = enc b -> a = b) ->
+  forall l l', kplan_ok l = true -> kplan_ok l' = true -> plan_key show_var enc l = plan_key show_var enc l' -> l = l'.
+Proof. exact plan_key_injective_show_var. Qed.
+Print Assumptions C02_memo_key_injective_plan_named.
+
+(* in particular the graph term of a Graph operator is part of the key (the seeded change C01/3 dropped it) *)
+Theorem C02_graph_term_in_key : forall vn enc, (forall x, name_ok (vn x) = true) -> (forall x y, vn x = vn y -> x = y) ->
+  (forall a b : term, enc a = enc b -> a = b) ->
+  forall i g g', kplan_ok (LGraph i g) = true -> plan_key vn enc (LGraph i g) = plan_key vn enc (LGraph i g') -> g = g'.
+Proof. exact graph_term_in_key. Qed.
+Print Assumptions C02_graph_term_in_key.
 
 (* non-vacuity: a plan with all three join algorithms satisfying every hypothesis of C02_plan_independent *)
 Example C02_example :
